@@ -30,6 +30,7 @@ import (
 
 	apps "k8s.io/api/apps/v1"
 	v1 "k8s.io/api/core/v1"
+	"k8s.io/apimachinery/pkg/api/errors"
 	metav1 "k8s.io/apimachinery/pkg/apis/meta/v1"
 	"k8s.io/apimachinery/pkg/types"
 	clientset "k8s.io/client-go/kubernetes"
@@ -178,7 +179,25 @@ func (dc *DeploymentController) patchExtraStatus(deployment *apps.Deployment) er
 		return nil // no need to update
 	}
 
-	body := fmt.Sprintf(`{"metadata":{"annotations":{"%s":"%s"}}}`,
+	// The release may have ended while this reconcile was running: the BatchRelease then has removed the control
+	// annotations, this one included. Look at the Deployment as it is now and bind the patch to that version, so that
+	// the annotation can not come back on a Deployment that is no longer under rollout control.
+	latest, err := dc.client.AppsV1().Deployments(deployment.Namespace).Get(context.TODO(), deployment.Name, metav1.GetOptions{})
+	if err != nil {
+		if errors.IsNotFound(err) {
+			return nil
+		}
+		return err
+	}
+	if !deploymentutil.IsUnderRolloutControl(latest) {
+		return nil
+	}
+	if latest.Annotations[rolloutsv1alpha1.DeploymentExtraStatusAnnotation] == extraStatusAnno {
+		return nil // no need to update
+	}
+
+	body := fmt.Sprintf(`{"metadata":{"resourceVersion":"%s","annotations":{"%s":"%s"}}}`,
+		latest.ResourceVersion,
 		rolloutsv1alpha1.DeploymentExtraStatusAnnotation,
 		strings.Replace(extraStatusAnno, `"`, `\"`, -1))
 
